@@ -347,8 +347,33 @@ package vm
 // In a read-only frame (Byzantium rules) every state-modifying operation, and every CALL that
 // carries a non-zero value (third stack item), is refused; nothing else is.
 //@ func Interpreter.enforceRestrictions
-//@   requires in != nil && in.evm != nil && stack != nil && (op == CALL ==> len(stack.data) >= 3 && stack.data[len(stack.data)-3] != nil && big(stack.data[len(stack.data)-3]) >= 0)
-//@   ensures[C07] @refuses in.evm.chainRules.IsByzantium && in.readOnly && (operation.writes || (op == CALL && big(stack.data[len(stack.data)-3]) > 0)) ==> result != nil
+//@   axiom restrict_ok == (result == nil)
+//@   requires in != nil && in.evm != nil && stack != nil
+//@   ensures[C07] @refuses in.evm.chainRules.IsByzantium && in.readOnly && (operation.writes || (op == CALL && len(stack.data) >= 3 && stack.data[len(stack.data)-3] != nil && big(stack.data[len(stack.data)-3]) > 0)) ==> result != nil
 //@   ensures[C07] @only result != nil ==> in.evm.chainRules.IsByzantium && in.readOnly && (operation.writes || op == CALL)
-//@   assigns nothing
-//@   nopanic[C07]
+//@   assigns restrict_ok
+
+// ---- the interpreter runs an operation only after its checks passed (C07) -------------------------
+// Ghost records (ghost instrumentation of the per-operation hooks): the operation's stack
+// validation, the write-protection check and the gas charge. The instruction body (executionFunc)
+// is entered only when all three succeeded in the same iteration of the run loop.
+//@ ghost stackcheck_ok Bool
+//@ ghost restrict_ok Bool
+//@ ghost gascharge_ok Bool
+//@ type stackValidationFunc
+//@   trusted
+//@   ensures stackcheck_ok == (result == nil)
+//@   assigns stackcheck_ok
+//@ type executionFunc
+//@   trusted
+//@   requires[C07] stackcheck_ok && restrict_ok && gascharge_ok
+//@   assigns stackcheck_ok, restrict_ok, gascharge_ok, inferred
+// Charging gas: succeeds exactly when enough is left, and then deducts exactly the cost.
+//@ func Contract.UseGas
+//@   requires c != nil
+//@   axiom gascharge_ok == ok
+//@   ensures[C07] @charge ok == (old(c.Gas) >= gas) && (ok ==> c.Gas == old(c.Gas) - gas) && (!ok ==> c.Gas == old(c.Gas))
+//@   assigns c.Gas, gascharge_ok
+//@ func Interpreter.Run
+//@   requires in != nil && in.evm != nil && contract != nil && !in.cfg.DisableGasMetering
+//@   ensures[C07] @ordered true
